@@ -117,7 +117,7 @@ def main():
     ms = json.load(open(os.path.join(ROOT, "mutants", "benign.json")))
     if a.id: ms = [m for m in ms if m["id"] == a.id]
     if a.match: ms = [m for m in ms if re.search(a.match, m["id"])]
-    props = [a.prop] if a.prop else ALL
+    props = a.prop.split(',') if a.prop else ALL
     bad = 0
     with cf.ThreadPoolExecutor(max_workers=a.j) as ex:
         for mid, status, detail in ex.map(lambda m: run_one(m, props, not a.no_tests), ms):
